@@ -26,16 +26,11 @@ struct TimedTaskImpl {
   TimedTaskImpl(size_t times, double next, double per, F&& f, Schedulable& sched, bool stdy)
       : timesToRun(times), nextAbsTime(next), period(per), steady(stdy) {
     func = [&sched, f = std::move(f), this](std::shared_ptr<TimedTaskImpl> me) {
-      // Announce the invocation *before* testing the cancelled flag.  ~TimedTask sets the flag and
-      // then waits for inProgress to drop to zero before it destroys this very closure; with the
-      // test first, a destruction landing between the test and the increment freed the closure
-      // (and the captured schedulable reference) under the scheduler thread.  Both sides use
-      // seq_cst so that either we see the flag or the destructor sees our increment.
-      inProgress.fetch_add(1, std::memory_order_seq_cst);
-      if (flags.load(std::memory_order_seq_cst) & kFFlagsCancelled) {
-        inProgress.fetch_sub(1, std::memory_order_release);
-        return;
-      }
+      // inProgress has already been incremented for this invocation by
+      // TimedTaskScheduler::kickOffTask, before it touched func and after which it tested the
+      // cancelled flag: ~TimedTask, which sets the flag and then waits for inProgress to drop to
+      // zero before destroying this closure, therefore cannot run underneath us.  The wrapper
+      // below releases the count when it has run.
       DISPENSO_VERIF_POINT(::dispenso::verif::kTimedAfterCancelTest);
 
       auto wrap = [&f, this, me = std::move(me)]() mutable {
